@@ -191,6 +191,7 @@ def _init_worker(mode, known_dev):
     an alarm handler (an analysis that does not come back is reported, not waited for)"""
     _W["mode"] = mode
     _W["dev"] = known_dev
+    _W["tier"] = _TIER[0]
     try:
         with open("/proc/self/statm") as f:
             cur = int(f.read().split()[0]) * resource.getpagesize()
@@ -418,6 +419,8 @@ def page_environments(groups, la, res):
     (text beyond the short side).  The grouping must be the specification's: which lines join does not depend on how the
     page is turned.  Every eligible arrangement goes to one of the four rotations."""
     elig = [rs for rs in groups if R.env_eligible(rs[0]) and not (rs[0].get("_sim") and any(r.get("tie") for r in rs))]
+    if _W.get("tier") == "quick":
+        elig = elig[::2]
     for ri, rot in enumerate(R.ENV_ROTATIONS):
         part = elig[ri::len(R.ENV_ROTATIONS)]
         if not part:
